@@ -185,6 +185,7 @@ Lemma hinv_frame : forall o h w st scr, oracle_ok o ->
   let scr' := exec_list o scr (fst (frame o st)) in
   HInv o h w (snd (frame o st)) scr'
   /\ front (snd (frame o st)) = blank_surface h w
+  /\ back (snd (frame o st)) = nw
   /\ (forall r c, r < h -> c < w -> gget (sgrid scr') r c = Some (den o h w nw r c))
   /\ (forall i r c, In (i, r, c) (places scr') <-> img_cell nw i r c).
 Proof.
@@ -208,7 +209,7 @@ Proof.
   { intros i r c. rewrite Hp. split.
     - intros [[Hin Hne]|H]; auto. exfalso. apply Hne. apply (hi_places _ _ _ _ _ HI). exact Hin.
     - intros H. right. exact H. }
-  split; [|split; [reflexivity|split; [exact Hg|exact Hpl]]].
+  split; [|split; [reflexivity|split; [reflexivity|split; [exact Hg|exact Hpl]]]].
   constructor; simpl; auto.
   - apply gdims_gmake.
   - fold (blank_surface h w). rewrite blank_resolved. apply good_blank. auto.
@@ -247,7 +248,7 @@ Lemma frame_shows : forall o h w st scr, oracle_ok o ->
   same_display (exec_list o scr (fst (frame o st))) (show o h w (front st)) = true.
 Proof.
   intros o h w st scr Hok HI. pose proof Hok as (Hsp & Hfs & Hlaw).
-  destruct (hinv_frame o h w st scr Hok HI) as (HI' & _ & Hg & Hp).
+  destruct (hinv_frame o h w st scr Hok HI) as (HI' & _ & _ & Hg & Hp).
   destruct (show_den o h w (front st) Hsp Hlaw (hi_front_dims _ _ _ _ _ HI) (hi_front _ _ _ _ _ HI))
     as (Hs2 & Hg2 & Hp2).
   apply (display_same _ _ h w).
